@@ -651,6 +651,16 @@ impl Group {
         key_tag: u16,
         cache: &SigCache,
     ) -> bool {
+        // Whether a signature is within its validity period depends on the
+        // current time. Check that first, a cached result must not outlive
+        // the expiration time of the signature.
+        let ts_now = Timestamp::now();
+        if !(ts_now <= sig.data().expiration()
+            && ts_now >= sig.data().inception())
+        {
+            return false;
+        }
+
         let mut signed_data = Vec::<u8>::new();
         sig.data()
             .signed_data(&mut signed_data, &mut self.rr_set())
